@@ -1,11 +1,21 @@
 //! C03: float arithmetic under the rounding contract.
 //! case: `<op> <base hex> <mode> <precision hex> <sig1> <exp1> [<sig2> <exp2>]`
 //! answer: `ok <sig> <exp> <Exact|NoOp|AddOne|SubOne|NoFlag> <precision>`
+//! extra forms: `mulp_*/divp_* <base> <mode> <p1> <sig1> <exp1> <sig2> <exp2> <p2>` (operands with their own
+//! precisions), `mulprim_fi|mulprim_if|divprim_fi|divprim_if <base> <mode> <p> <sig1> <exp1> <n> 0` (primitive /
+//! IBig operand n), `rfract <base> <mode> <k> <integer> <fract>` -> `ok <NoOp|AddOne|SubOne>` (Round::round_fract
+//! called directly: the f32 pre-filter against the exact comparison).
 use dashu_base::SquareRoot;
+use dashu_float::round::Round;
 use hlib::*;
+use std::convert::TryFrom;
 
 fn run(op: &str, a: &[&str]) -> String {
     with_float!(a[0], a[1], |R, B| {
+        if op == "rfract" {
+            let adj = <R as Round>::round_fract::<B>(&ibig(a[3]), ibig(a[4]), usz(a[2]));
+            return format!("ok {}", rounding_str(adj));
+        }
         let p = usz(a[2]);
         let ctx = Context::<R>::new(p);
         let x = repr_of::<B>(a[3], a[4]);
@@ -44,6 +54,39 @@ fn run(op: &str, a: &[&str]) -> String {
             "sub_assign" => { let mut v = fx(); v -= fy(); val(v) }
             "mul_assign" => { let mut v = fx(); v *= fy(); val(v) }
             "div_assign" => { let mut v = fx(); v /= fy(); val(v) }
+            // operands carrying different precisions: the result context is Context::max
+            "mulp_vv" | "mulp_vr" | "mulp_rv" | "mulp_rr" | "divp_vv" | "divp_vr" | "divp_rv" | "divp_rr" | "mulp_assign" | "divp_assign" => {
+                let c2 = Context::<R>::new(usz(a[7]));
+                let l = fx();
+                let r = FBig::<R, B>::from_repr(y.clone(), c2);
+                match op {
+                    "mulp_vv" => val(l * r),
+                    "mulp_vr" => val(l * &r),
+                    "mulp_rv" => val(&l * r),
+                    "mulp_rr" => val(&l * &r),
+                    "divp_vv" => val(l / r),
+                    "divp_vr" => val(l / &r),
+                    "divp_rv" => val(&l / r),
+                    "divp_rr" => val(&l / &r),
+                    "mulp_assign" => { let mut v = l; v *= r; val(v) }
+                    _ => { let mut v = l; v /= r; val(v) }
+                }
+            }
+            // primitive / big-integer operand, converted by FBig::from (precision = its digit count, at least 1)
+            "mulprim_fi" | "mulprim_if" | "divprim_fi" | "divprim_if" => {
+                let n = ibig(a[5]);
+                let l = fx();
+                match (op, i64::try_from(&n)) {
+                    ("mulprim_fi", Ok(k)) => val(l * k),
+                    ("mulprim_fi", Err(_)) => val(&l * &n),
+                    ("mulprim_if", Ok(k)) => val(k * &l),
+                    ("mulprim_if", Err(_)) => val(n * l),
+                    ("divprim_fi", Ok(k)) => val(&l / k),
+                    ("divprim_fi", Err(_)) => val(l / n),
+                    ("divprim_if", Ok(k)) => val(k / l),
+                    (_, _) => val(&n / &l),
+                }
+            }
             "fsqr" => val(fx().sqr()),
             "fcubic" => val(fx().cubic()),
             "fsqrt" => val(fx().sqrt()),
